@@ -83,7 +83,7 @@ class Wrappers:
         sh.check('caller-frame-untouched', arg_after.equals(before) and list(arg_after.columns) == old_cols, 'caller-frame-mutated', wit)
         args = None
         for x in list(a) + list(k.values()):
-            if hasattr(x, 'label_column'):
+            if 'label_column' in getattr(x, '__dict__', {}):      # the args namespace (the logger / progress-bar stand-ins answer to any attribute name)
                 args = x
         if name == 'compute_expanded_multivalue_features' and args is not None:
             missing = set(args.missing_value_symbols.split(','))
